@@ -175,6 +175,10 @@ type Exec struct {
 	obSeq     int
 	pending   []ob
 	known     map[int32]bool // asserted-true term ids
+	usedVar   map[int32]bool // variables occurring in the asserted path condition
+	usedArr   map[int32]bool // base arrays occurring in the asserted path condition
+	leafDone  map[int32]bool // term nodes already scanned into usedVar/usedArr
+	FreshSat  int            // feasibility checks decided without the solver (condition over fresh inputs only)
 	regions   []region
 	tape      []TapeEntry
 	res       *PathResult
@@ -248,6 +252,7 @@ func (ex *Exec) RunPath(fn *ssa.Function, item WorkItem) (res PathResult) {
 	ex.obSeq = 0
 	ex.pending = ex.pending[:0]
 	ex.known = map[int32]bool{}
+	ex.usedVar, ex.usedArr, ex.leafDone = map[int32]bool{}, map[int32]bool{}, map[int32]bool{}
 	ex.regions = nil
 	ex.tape = nil
 	ex.unwind = 64
@@ -320,7 +325,93 @@ func (ex *Exec) assertFact(c *term.T) {
 		ex.known[c.A.ID] = true
 		ex.known[c.B.ID] = true
 	}
+	ex.noteUsed(c)
 	ex.S.Assert(c)
+}
+
+// noteUsed records the input variables and base arrays a newly asserted fact talks about.
+func (ex *Exec) noteUsed(t *term.T) {
+	stack := []*term.T{t}
+	for len(stack) > 0 {
+		n := stack[len(stack)-1]
+		stack = stack[:len(stack)-1]
+		if n == nil || n.Op == term.OConst || ex.leafDone[n.ID] {
+			continue
+		}
+		ex.leafDone[n.ID] = true
+		switch n.Op {
+		case term.OVar:
+			ex.usedVar[n.ID] = true
+		case term.OSelect:
+			ex.usedArr[n.Arr.ID] = true
+		}
+		stack = append(stack, n.A, n.B, n.C)
+	}
+}
+
+// freshSat decides path ∧ extras WITHOUT the solver in one frequent special case: the extras mention only
+// inputs (variables, base arrays) that occur nowhere in the path condition asserted so far. The path
+// condition is satisfiable (every continued path is), its models do not constrain those inputs, so the
+// conjunction is satisfiable iff the extras are satisfiable on their own; that is established by evaluating
+// them under a few uniform candidate assignments (all fresh inputs 0, 1, 2, ...). Failing to find one
+// proves nothing and the solver is asked as usual. Typical hit: vf.Assume(lo <= x && x <= hi) on a freshly
+// drawn x (the kernel model draws a clock increment per epoll_wait).
+func (ex *Exec) freshSat(extra []*term.T) bool {
+	if len(extra) == 0 {
+		return false
+	}
+	var leaves []*term.T
+	seen := map[int32]bool{}
+	stack := append([]*term.T(nil), extra...)
+	for len(stack) > 0 {
+		n := stack[len(stack)-1]
+		stack = stack[:len(stack)-1]
+		if n == nil || n.Op == term.OConst || seen[n.ID] {
+			continue
+		}
+		seen[n.ID] = true
+		if len(seen) > 256 {
+			return false
+		}
+		switch n.Op {
+		case term.OVar:
+			if ex.usedVar[n.ID] {
+				return false
+			}
+			leaves = append(leaves, n)
+		case term.OSelect:
+			if ex.usedArr[n.Arr.ID] {
+				return false
+			}
+			leaves = append(leaves, n)
+		}
+		stack = append(stack, n.A, n.B, n.C)
+	}
+	for _, cand := range [...]uint64{0, 1, 2, 8, 255, ^uint64(0)} {
+		model := make(map[int32]uint64, len(leaves))
+		for _, l := range leaves {
+			v := cand
+			switch {
+			case l.W == 0:
+				v &= 1
+			case l.W < 64:
+				v &= 1<<l.W - 1
+			}
+			model[l.ID] = v
+		}
+		memo := map[int32]uint64{}
+		all := true
+		for _, e := range extra {
+			if v, ok := term.Eval(e, model, memo); !ok || v == 0 {
+				all = false
+				break
+			}
+		}
+		if all {
+			return true
+		}
+	}
+	return false
 }
 
 func (ex *Exec) syntactic(c *term.T) (val, ok bool) {
@@ -340,7 +431,13 @@ func (ex *Exec) syntactic(c *term.T) (val, ok bool) {
 	return false, false
 }
 
+var noFreshSat = os.Getenv("SSE_NOFRESHSAT") != ""
+
 func (ex *Exec) check(extra ...*term.T) smt.Result {
+	if !noFreshSat && ex.freshSat(extra) {
+		ex.FreshSat++
+		return smt.Sat
+	}
 	ex.S.Where = ex.posString(ex.curPos)
 	r := ex.S.Check(extra...)
 	if ex.S.Err != nil {
